@@ -232,7 +232,11 @@ func EncodeWith(comp string, f *frame.Frame) (primitive.HeaderFlag, []byte, erro
 		return 0, nil, err
 	}
 	b := buf.Bytes()
-	return primitive.HeaderFlag(b[1]), b[9:], nil
+	flags, body := primitive.HeaderFlag(b[1]), b[9:]
+	if strings.EqualFold(comp, "lz4") && flags.Contains(primitive.HeaderFlagCompressed) {
+		body = fakecass.ValidLz4Body(body) // the library's compressor can emit an invalid block; never send a malformed frame by accident
+	}
+	return flags, body, nil
 }
 
 // Send encodes msg with the reference codec and sends it on the stream.
